@@ -8,7 +8,7 @@ READY = True
 RULE = ("credits: one real machine (credits mode + real attract/game modes on the virtual clock) is booted per case from "
         "a generated credits: section (coin values, 0-3 extra pricing tiers incl. skipped ones, max_credits 0/N, both "
         "expiration times, credit events, free_play at boot, balls_per_game) and driven by a history of 10-60 "
-        "operations (coin switches, service switch, credit events, start button, ball ends, game end, waits on a "
+        "operations (coin switches, service switch, credit events, start button incl. bursts of 2-4 presses inside one run of the event queue, ball ends, game end, waits on a "
         "125 ms grid, toggle/enable free/credit play, credits_reset, earnings_reset); after every operation the "
         "machine variables, game state, tier counter, earnings and posted events are observed.  Histories are biased "
         "to run into the maximum with a multi-unit coin and to cross tier wrap-arounds and game starts.  "
@@ -28,7 +28,7 @@ TRUSTED_BASE = [
     "the direct oracle (Python) evaluates bounds, start gate, display, earnings and the money-level pricing formula on the implementation's observations",
 ]
 ASSUMPTIONS = [
-    "fixes/C20-cap-overshoot.patch, C20-freeplay-boot-units.patch and C20-duplicate-credit-handlers.patch are applied (the model is of the fixed code)",
+    "fixes/C20-cap-overshoot.patch, C20-freeplay-boot-units.patch, C20-duplicate-credit-handlers.patch are applied (committed in /repo as 8c88f5c, ebe35ba, 5503f26; the model is of the fixed code)",
     "configuration domain: every coin value and tier price is a whole number of the computed credit unit, event credits "
     "a whole number of units, first tier gives 1 credit, yields are monotone (otherwise the code raises or rounds; see NOTES.md)",
     "configuration is constant during a run (max_credits and prices are templates in MPF); no reboot/persistence of credit_units",
@@ -142,6 +142,10 @@ def gen_ops(rng, cfg, n):
             ops.append(["coin", rng.randrange(nco)])
         if big is not None:
             ops.append(["coin", big])
+    if not cfg["boot_fp"] and rng.random() < 0.15:
+        # a game on ball 1 with exactly k game prices left, then k+1.. presses at once
+        k = rng.choice([1, 1, 2])
+        ops += [["svc"]] * (k + 1) + [["start"], ["starts", k + rng.choice([1, 1, 2])]]
     while len(ops) < n:
         r = rng.random()
         if r < 0.40 and nco:
@@ -152,7 +156,10 @@ def gen_ops(rng, cfg, n):
         elif r < 0.54 and nev:
             ops.append(["ev", rng.randrange(nev)])
         elif r < 0.68:
-            ops += [["start"]] * rng.choice([1, 1, 2])
+            if rng.random() < 0.35:
+                ops.append(["starts", rng.choice([2, 2, 3, 4])])     # presses inside one run of the event queue
+            else:
+                ops += [["start"]] * rng.choice([1, 1, 2])
         elif r < 0.76:
             ops.append(["endball"])
         elif r < 0.79:
@@ -268,6 +275,10 @@ def run_impl(case):
                     m.events.post("verif_credit_%d" % o[1])
                 elif k == "start":
                     r.hit_and_release_switch("s_start")
+                elif k == "starts":
+                    for _ in range(o[1]):
+                        m.switch_controller.process_switch("s_start", state=1, logical=True)
+                        m.switch_controller.process_switch("s_start", state=0, logical=True)
                 elif k == "endball":
                     if m.game is not None:
                         m.game.balls_in_play = 0
@@ -342,7 +353,7 @@ def coq_cfg(cfg):
 def coq_op(o):
     k = o[0]
     return {"coin": lambda: "Coin %d" % o[1], "svc": lambda: "Service", "ev": lambda: "CreditEv %d" % o[1],
-            "start": lambda: "Start", "endball": lambda: "EndBall", "endgame": lambda: "EndGame",
+            "start": lambda: "Start", "starts": lambda: "StartBurst %d" % o[1], "endball": lambda: "EndBall", "endgame": lambda: "EndGame",
             "wait": lambda: "Wait %d" % o[1], "toggle": lambda: "ToggleFree", "free": lambda: "EnableFree",
             "credit": lambda: "EnableCredit", "rc": lambda: "ResetCredits", "re": lambda: "ResetEarnings"}[k]()
 
@@ -373,6 +384,11 @@ def fmt_credits(units, upg):
     if n:
         return "%d %d/%d" % (w, n, upg) if w else "%d/%d" % (n, upg)
     return str(w)
+
+
+def e_paid(row):
+    x = row["earn"].get("3 Total Paid Games", 0)
+    return x if isinstance(x, int) else -1
 
 
 def oracle(case, out):
@@ -422,15 +438,23 @@ def oracle(case, out):
         # an expiry deadline fell inside this operation: the exact-delta checks below are skipped for it
         can_expire = any(row["expdue"])
         # start gate ------------------------------------------------------------------------------
-        if k == "start":
+        if k in ("start", "starts"):
             began = row["ingame"] and not prev["ingame"]
             added = row["npl"] - (prev["npl"] if prev["ingame"] else 0) if row["ingame"] else 0
             if not prev["fp"] and not row["fp"]:
                 blocked_by_game = prev["ingame"] and (prev["npl"] >= MAX_PLAYERS or prev["ball"] > 1)
-                if added > 0:
-                    if pu < upg:
-                        fail("start-without-price", "a player was added with only %s credits %s" %
-                             (fmt_credits(pu, upg), where))
+                burst_defect = (k == "starts" and o[1] >= 2 and prev["ingame"] and not blocked_by_game and
+                                upg <= pu < upg * o[1] and added == o[1] and u == 0 and
+                                e_paid(row) - e_paid(prev) == o[1])
+                if burst_defect:
+                    # exactly what the recorded defect produces: all presses approved against the same balance,
+                    # deductions floored at 0
+                    fail("start-burst-unpaid", "%d presses in one event-queue run with %s credits: %d players added, "
+                         "balance %d -> 0 units (price %d units each) %s" % (o[1], fmt_credits(pu, upg), added, pu, upg, where))
+                elif added > 0:
+                    if pu < upg * added:
+                        fail("start-without-price", "%d player(s) added with only %s credits %s" %
+                             (added, fmt_credits(pu, upg), where))
                     exp = pu - upg * added
                     if u != exp and not can_expire:
                         fail("start-deduction", "player added: balance went %d -> %d units, price is %d units %s" %
